@@ -115,7 +115,10 @@ def oracle(c, st):
                 m = len(v)
                 for i in range(m):
                     a, b, cc = v[i - 1], v[i], v[(i + 1) % m]
-                    if len2(cross(sub(b, a), sub(cc, b))) < TOL_COL ** 2 * Fr(99, 100):
+                    # geometric collinearity (angle below 1e-7 rad) or coincident neighbours; a genuine corner between
+                    # centimetre-long edges that merely falls under the crate's absolute 1e-5 tolerance is not collinear
+                    e1, e2 = sub(b, a), sub(cc, b)
+                    if len2(cross(e1, e2)) < Fr(1, 10 ** 14) * len2(e1) * len2(e2) or len2(e1) < TOL_COL ** 2 or len2(e2) < TOL_COL ** 2:
                         return ('C04:closed-collinear' + (':after-retrace' if retraced else ''), 'vertex %d of a closed loop is collinear with its neighbours' % i)
                 for q in v:
                     if abs(dot(n, sub(v[0], q))) > Fr(1, 10 ** 6): return ('C04:closed-nonplanar', 'closed loop is not planar')
